@@ -530,5 +530,298 @@ theorem codegen_neutral_options {c c' : Ctx} (H : NeutralAgree c c') (op : Nat) 
   apply ORel.pure
   simp only [List.map_append, hr]
 
+/-- … and generation fails under `c` exactly when it fails under `c'`, with the same error -/
+theorem codegen_neutral_same_error {c c' : Ctx} (H : NeutralAgree c c') (op : Nat) (err : Err) :
+    responseForQuery c op = .error err ↔ responseForQuery c' op = .error err := by
+  have h := codegen_neutral_options H op
+  cases h1 : responseForQuery c op <;> cases h2 : responseForQuery c' op <;>
+    simp [h1, h2, Except.map] at h ⊢
+  exact h ▸ Iff.rfl
+
+/-- the same at the level of the emitted module: only `vis`, `structDecl`, `queryInclude`, `useSerde`
+    (and the derives / serde path / alias visibility inside the items) can differ -/
+theorem generatedModule_neutral {c c' : Ctx} (H : NeutralAgree c c') (query operation : String) :
+    ORel (fun m m' => m.modName = m'.modName ∧ m.operationName = m'.operationName ∧ m.query = m'.query ∧
+            m.implFor = m'.implFor ∧ m.items.map stripItem = m'.items.map stripItem)
+      (generatedModule c query operation) (generatedModule c' query operation) := by
+  unfold generatedModule selectOperation
+  simp only [H.q, H.cs, H.normalization]
+  split
+  · simp only [pure_bind]
+    apply ORel.bind ((ORel.map_iff _ _ _).mpr (codegen_neutral_options H _)); intro a b hab
+    exact ORel.pure ⟨rfl, rfl, rfl, rfl, hab⟩
+  · exact rfl
+
+/-! ## 3. hence the wire behaviour is the same -/
+
+/-- reading and writing agree on two environments: for every named type / type expression, fuel,
+    JSON value and Rust value -/
+structure WireSame (e e' : Env) : Prop where
+  dePath : ∀ b fuel p j, Serde.dePath e b fuel p j = Serde.dePath e' b fuel p j
+  deFlat : ∀ fuel t buf, Serde.deFlat e fuel t buf = Serde.deFlat e' fuel t buf
+  serPath : ∀ fuel p v, Serde.serPath e fuel p v = Serde.serPath e' fuel p v
+  de : ∀ t j, Serde.de e t j = Serde.de e' t j
+  ser : ∀ t v, Serde.ser e t v = Serde.ser e' t v
+  roundtrip : ∀ t j, Serde.roundtrip e t j = Serde.roundtrip e' t j
+
+theorem wireSame_of_strip_eq (e e' : Env) (hi : e.items.map stripItem = e'.items.map stripItem)
+    (hx : e.externs = e'.externs) : WireSame e e' :=
+  let h := serde_eq_of_strip_eq e e' hi hx
+  ⟨h.1, h.2.1, h.2.2.1, h.2.2.2.1, h.2.2.2.2.1, h.2.2.2.2.2⟩
+
+/-- **3.** under the hypotheses of 2: the modules generated under `c` and `c'` (completed by the same
+    consumer-supplied `externs`) read and write identically; and one is generated iff the other is -/
+theorem wire_invariant_derives_serde_visibility {c c' : Ctx} (H : NeutralAgree c c') (op : Nat) :
+    ORel (fun items items' => ∀ externs : List (String × RTy),
+            WireSame { items := items, externs := externs } { items := items', externs := externs })
+      (responseForQuery c op) (responseForQuery c' op) :=
+  ORel.mono (R := fun a b => List.map stripItem a = List.map stripItem b)
+    (fun items items' hab externs =>
+      wireSame_of_strip_eq { items := items, externs := externs } { items := items', externs := externs } hab rfl)
+    ((ORel.map_iff _ _ _).mpr (codegen_neutral_options H op))
+
+/-- the same, spelled out for a successful generation -/
+theorem wire_invariant_derives_serde_visibility' {c c' : Ctx} (H : NeutralAgree c c') (op : Nat)
+    (items : List Item) (hi : responseForQuery c op = .ok items) :
+    ∃ items', responseForQuery c' op = .ok items' ∧
+      ∀ (externs : List (String × RTy)) (b : Bool) (fuel : Nat) (p : String) (t : RTy) (j : Json) (v : Val),
+        let e : Env := { items := items, externs := externs }
+        let e' : Env := { items := items', externs := externs }
+        Serde.dePath e b fuel p j = Serde.dePath e' b fuel p j ∧
+        Serde.serPath e fuel p v = Serde.serPath e' fuel p v ∧
+        Serde.de e t j = Serde.de e' t j ∧ Serde.ser e t v = Serde.ser e' t v ∧
+        Serde.roundtrip e t j = Serde.roundtrip e' t j := by
+  have h := wire_invariant_derives_serde_visibility H op
+  rw [hi] at h
+  cases h' : responseForQuery c' op with
+  | error err => rw [h'] at h; exact h.elim
+  | ok items' =>
+    rw [h'] at h
+    refine ⟨items', rfl, fun externs b fuel p t j v => ?_⟩
+    have w := h externs
+    exact ⟨w.dePath b fuel p j, w.serPath fuel p v, w.de t j, w.ser t v, w.roundtrip t j⟩
+
+/-! ## 4. `custom_scalars_module` only moves the target of the custom-scalar aliases -/
+
+/-- the same context with another `custom_scalars_module` (every `c'` that differs from `c` only in
+    this option is of this form) -/
+def withScalarsModule (c : Ctx) (m : Option String) : Ctx := { c with o := { c.o with scalarsModule := m } }
+
+/-- the alias emitted for the custom scalar with Rust identifier `ident` -/
+def scalarAlias (m : Option String) (ident : String) : Item :=
+  .alias ident false (.path (m.getD "super" ++ "::" ++ ident))
+
+/-- the identifiers of the custom scalars that are used (does not read `scalarsModule`) -/
+def scalarIdents (c : Ctx) (u : UsedTypes) : Outcome (List String) := do
+  let ids := sortNat (u.types.filterMap TypeId.asScalar?)
+  let names ← ids.mapM c.s.getScalar
+  pure ((names.filter (fun n => !Schema.defaultScalars.contains n)).map (c.o.normalization.scalarName c.cs))
+
+theorem scalarItems_eq (c : Ctx) (u : UsedTypes) :
+    scalarItems c u = (scalarIdents c u).map (List.map (scalarAlias c.o.scalarsModule)) := by
+  unfold scalarItems scalarIdents
+  simp only []
+  generalize (sortNat (u.types.filterMap TypeId.asScalar?)).mapM c.s.getScalar = r
+  cases r with
+  | error e => rfl
+  | ok names =>
+    simp only [bind, Except.bind, pure, Except.pure, Except.map, List.map_map]
+    rfl
+
+theorem withScalarsModule_itemsAgree (c : Ctx) (m : Option String) : ItemsAgree id c (withScalarsModule c m) where
+  s := rfl
+  q := rfl
+  cs := rfl
+  otherVariant := rfl
+  skipNone := rfl
+  deprecation := rfl
+  normalization := rfl
+  render := fun _ _ _ => rfl
+  externEnums := rfl
+  enum := fun _ => rfl
+  input := fun i => ORel.refl (fun _ => rfl) (inputItem c i)
+  vars := fun op => ORel.refl (R := RI id) (fun _ => rfl) (variablesItems c op)
+
+theorem restItems_withScalarsModule (c : Ctx) (m : Option String) (u : UsedTypes) (op : Nat) :
+    restItems (withScalarsModule c m) u op = restItems c u op := by
+  have h := restItems_congr id (withScalarsModule_itemsAgree c m) u op
+  have h' : ORel Eq (restItems c u op) (restItems (withScalarsModule c m) u op) :=
+    ORel.mono (fun a b hab => by simpa only [RI, List.map_id] using hab) h
+  exact ((ORel.eq_iff _ _).mp h').symm
+
+/-- **4.** (IR statement) changing `custom_scalars_module` from its value in `c` to `m`: generation fails
+    with the same error, or both modules are `builtinAliases ++ (aliases of the custom scalars) ++ rest`
+    with the *same* `rest`, the same alias names, and the alias of `ident` pointing to
+    `<module>::ident` — nothing else differs -/
+theorem scalars_module_only_changes_alias_target (c : Ctx) (m : Option String) (op : Nat) :
+    (∃ err, responseForQuery c op = .error err ∧ responseForQuery (withScalarsModule c m) op = .error err) ∨
+    (∃ (idents : List String) (rest : List Item),
+      responseForQuery c op = .ok (builtinAliases ++ idents.map (scalarAlias c.o.scalarsModule) ++ rest) ∧
+      responseForQuery (withScalarsModule c m) op = .ok (builtinAliases ++ idents.map (scalarAlias m) ++ rest)) := by
+  rw [responseForQuery_split, responseForQuery_split]
+  have hs : (withScalarsModule c m).s = c.s := rfl
+  have hq : (withScalarsModule c m).q = c.q := rfl
+  have hm : (withScalarsModule c m).o.scalarsModule = m := rfl
+  have hid : ∀ u, scalarIdents (withScalarsModule c m) u = scalarIdents c u := fun _ => rfl
+  simp only [hs, hq, hm, hid, restItems_withScalarsModule, scalarItems_eq]
+  generalize allUsedTypes c.s c.q op = U
+  cases U with
+  | error err => exact Or.inl ⟨err, rfl, rfl⟩
+  | ok u =>
+    show (∃ err, (Except.map _ (scalarIdents c u) >>= _) = _ ∧ (Except.map _ (scalarIdents c u) >>= _) = _) ∨
+      ∃ (idents : List String) (rest : List Item),
+        (Except.map _ (scalarIdents c u) >>= _) = _ ∧ (Except.map _ (scalarIdents c u) >>= _) = _
+    generalize scalarIdents c u = I
+    cases I with
+    | error err => exact Or.inl ⟨err, rfl, rfl⟩
+    | ok idents =>
+      show (∃ err, (restItems c u op >>= _) = _ ∧ (restItems c u op >>= _) = _) ∨
+        ∃ (idents : List String) (rest : List Item), (restItems c u op >>= _) = _ ∧ (restItems c u op >>= _) = _
+      generalize restItems c u op = R
+      cases R with
+      | error err => exact Or.inl ⟨err, rfl, rfl⟩
+      | ok rest => exact Or.inr ⟨idents, rest, rfl, rfl⟩
+
+/-! ## 5. normalization changes Rust names, never wire strings -/
+
+/-- the strings an item puts on / expects from the wire: field keys, variant tags, enum strings -/
+def itemWires : Item → List String
+  | .struct _ _ _ fs => fs.map RField.wire
+  | .oneOf _ _ _ vs => vs.map RVariant.wire
+  | .tagged _ _ _ _ vs => vs.map RVariant.wire
+  | .gqlEnum _ _ _ _ ser _ => ser.map (·.2)
+  | _ => []
+
+/-- the strings the `Deserialize` impl of a hand-written enum recognises -/
+def enumDeKeys : Item → List String
+  | .gqlEnum _ _ _ _ _ de => de.map (·.1)
+  | _ => []
+
+/-- for **every** context (normalization, case functions, …): the `Serialize` table writes exactly the
+    GraphQL variant names, the `Deserialize` table recognises exactly them, in schema order, and the two
+    tables are inverse to each other -/
+theorem enumItem_wire (c : Ctx) (e : StoredEnum) :
+    itemWires (enumItem c e) = e.variants ∧ enumDeKeys (enumItem c e) = e.variants ∧
+    ∃ n d sp ids ser de, enumItem c e = .gqlEnum n d sp ids ser de ∧ ser = de.map Prod.swap ∧ ids = de.map (·.2) := by
+  refine ⟨?_, ?_, ?_⟩
+  · simp [enumItem, itemWires, List.map_map, Function.comp_def]
+  · simp [enumItem, enumDeKeys, List.map_map, Function.comp_def]
+  · exact ⟨_, _, _, _, _, _, rfl, by simp [List.map_map, Function.comp_def], by simp [List.map_map, Function.comp_def]⟩
+
+/-- **5a.** enum wire strings are the same under any two contexts (in particular both normalizations) -/
+theorem enum_wire_strings_invariant (c c' : Ctx) (e : StoredEnum) :
+    itemWires (enumItem c e) = itemWires (enumItem c' e) ∧ enumDeKeys (enumItem c e) = enumDeKeys (enumItem c' e) :=
+  ⟨(enumItem_wire c e).1.trans (enumItem_wire c' e).1.symm, (enumItem_wire c e).2.1.trans (enumItem_wire c' e).2.1.symm⟩
+
+/-- **5b.** response fields: whatever the contexts, Rust identifiers and (normalized) type names, two
+    renderings of the field with GraphQL name / alias `g` have the same wire name, namely `g` -/
+theorem renderField_wire_invariant (c c' : Ctx) (g r r' ft ft' : String) (quals quals' : List Qual)
+    (fl fl' bx bx' : Bool) (dep dep' : Option (Option String)) (f f' : RField)
+    (h : renderField c (some g) r ft quals fl bx dep = .ok (some f))
+    (h' : renderField c' (some g) r' ft' quals' fl' bx' dep' = .ok (some f')) : f.wire = f'.wire :=
+  (C11.wire_is_graphql_name c g r ft quals fl bx dep f h).trans
+    (C11.wire_is_graphql_name c' g r' ft' quals' fl' bx' dep' f' h').symm
+
+/-- flattened fragment members carry no rename: their (unused) wire name is the Rust identifier, which
+    does not depend on the normalization -/
+theorem renderField_flatten_wire (c : Ctx) (r ft : String) (quals : List Qual) (fl bx : Bool)
+    (dep : Option (Option String)) (f : RField)
+    (h : renderField c none r ft quals fl bx dep = .ok (some f)) : f.wire = r ∧ f.rust = r := by
+  unfold renderField at h
+  cases hd : decorateType (.path ft) quals with
+  | error e => simp [hd, bind, Except.bind] at h
+  | ok ty =>
+    simp only [hd, bind, Except.bind] at h
+    split at h
+    · simp [pure, Except.pure] at h
+    · simp only [pure, Except.pure, Except.ok.injEq, Option.some.injEq] at h
+      subst h
+      exact ⟨rfl, rfl⟩
+
+theorem mapM_ok_map {α β γ} {g : α → Outcome β} (φ : β → γ) (ψ : α → γ) (h : ∀ x y, g x = .ok y → φ y = ψ x) :
+    ∀ (xs : List α) (ys : List β), xs.mapM g = .ok ys → ys.map φ = xs.map ψ
+  | [], ys, hm => by
+    simp only [List.mapM_nil, pure, Except.pure, Except.ok.injEq] at hm
+    subst hm; rfl
+  | x :: xs, ys, hm => by
+    rw [List.mapM_cons] at hm
+    cases hx : g x with
+    | error e => simp [hx, bind, Except.bind] at hm
+    | ok y =>
+      cases hxs : xs.mapM g with
+      | error e => simp [hx, hxs, bind, Except.bind] at hm
+      | ok ys' =>
+        simp only [hx, hxs, bind, Except.bind, pure, Except.pure, Except.ok.injEq] at hm
+        subst hm
+        simp only [List.map_cons, h x y hx, mapM_ok_map φ ψ h xs ys' hxs]
+
+theorem bind_ok {α β} {x : Outcome α} {f : α → Outcome β} {b : β} (h : x >>= f = .ok b) :
+    ∃ a, x = .ok a ∧ f a = .ok b := by
+  cases x with
+  | error e => cases h
+  | ok a => exact ⟨a, rfl, h⟩
+
+/-- input objects (plain and `@oneOf`): the wire names are the GraphQL field names, for every context -/
+theorem inputItem_wire (c : Ctx) (i : StoredInput) (it : Item) (h : inputItem c i = .ok it) :
+    itemWires it = i.fields.map (·.1) := by
+  unfold inputItem at h
+  split at h
+  · obtain ⟨vs, hm, hp⟩ := bind_ok h
+    cases hp
+    refine mapM_ok_map RVariant.wire (·.1) ?_ _ _ hm
+    intro ⟨fname, ty⟩ y hxy
+    obtain ⟨t, _, hp⟩ := bind_ok hxy
+    cases hp
+    exact C11.oneof_wire_is_graphql_name _ _ _
+  · obtain ⟨fs, hm, hp⟩ := bind_ok h
+    cases hp
+    refine mapM_ok_map RField.wire (·.1) ?_ _ _ hm
+    intro ⟨fname, ty⟩ y hxy
+    obtain ⟨t, _, hp⟩ := bind_ok hxy
+    cases hp
+    exact C11.input_wire_is_graphql_name _ _ _ _
+
+/-- **5c.** input-object wire names are the same under any two contexts (in particular both normalizations) -/
+theorem input_wire_strings_invariant (c c' : Ctx) (i : StoredInput) (it it' : Item)
+    (h : inputItem c i = .ok it) (h' : inputItem c' i = .ok it') : itemWires it = itemWires it' :=
+  (inputItem_wire c i it h).trans (inputItem_wire c' i it' h').symm
+
+/-- variables: the keys of the `Variables` struct are the GraphQL variable names, for every context -/
+theorem variablesItems_wire (c : Ctx) (op : Nat) (items : List Item) (h : variablesItems c op = .ok items) :
+    items.flatMap itemWires = (c.q.opVariables op).map (·.name) := by
+  unfold variablesItems at h
+  simp only at h
+  split at h
+  · rename_i he
+    cases h
+    simp only [List.isEmpty_iff] at he
+    simp [he, itemWires]
+  · obtain ⟨fs, hm, h⟩ := bind_ok h
+    obtain ⟨dfl, _, hp⟩ := bind_ok h
+    cases hp
+    have : fs.map RField.wire = (c.q.opVariables op).map (·.name) := by
+      refine mapM_ok_map RField.wire (·.name) ?_ _ _ hm
+      intro v y hxy
+      obtain ⟨t, _, hp⟩ := bind_ok hxy
+      cases hp
+      exact C11.input_wire_is_graphql_name _ _ _ _
+    simp [itemWires, this]
+
+/-- **5d.** variable wire names are the same under any two contexts with the same query -/
+theorem variables_wire_strings_invariant (c c' : Ctx) (hq : c'.q = c.q) (op : Nat) (items items' : List Item)
+    (h : variablesItems c op = .ok items) (h' : variablesItems c' op = .ok items') :
+    items.flatMap itemWires = items'.flatMap itemWires := by
+  rw [variablesItems_wire c op items h, variablesItems_wire c' op items' h', hq]
+
+/-- the variants of the internally tagged enums carry the GraphQL type name unrenamed; `calcVariants`
+    does not read the normalization at all: `renderType` with the same fields / variants has the same
+    wire strings whatever the context -/
+theorem renderType_wire (c c' : Ctx) (n : String) (fs : List RField) (vs : List RVariant) :
+    (renderType c n fs vs).map itemWires = (renderType c' n fs vs).map itemWires := by
+  unfold renderType
+  split
+  · rfl
+  · split <;> rfl
+
 end C09
 end GqlVerif
